@@ -39,7 +39,7 @@ def eligible(prog):
                     stack.pop()
         elif s.role == "simple" and stack and (not s.label or len(s.label) <= 3):
             top = stack[-1]
-            fam = top.text.lower().split()[0].rstrip(",")
+            fam = (top.text.lower().split() or ["program"])[0].rstrip(",")  # (the virtual opener of an anonymous main program has no text)
             if fam in ("type", "enum", "interface", "abstract", "select", "where", "forall"):
                 continue
             if s.text.lower().startswith(("enumerator", "module procedure", "procedure", "generic", "final", "import", "implicit")):
